@@ -475,9 +475,11 @@ class DequeGen:
                 i += 1
                 r = rng.random()
                 s0 = sims[0]
+                p_iter = {"iter": 0.12, "all": 0.05}.get(focus, 0.0)
+                p_der = {"derived": 0.15, "all": 0.05, "fault": 0.05}.get(focus, 0.0)
                 if focus == "growth" and r < 0.85:
                     self.core_op(rng, s0, ops, only=rng.choice(["add_last", "add_first", "add_last", "add"]))
-                elif focus in ("iter", "all") and r < (0.12 if focus == "iter" else 0.05):
+                elif r < p_iter:
                     if rng.random() < 0.65:
                         self.iter_program(rng, s0, ops, fault=fault, reject=reject, allow_fail=allow_fail)
                     else:
@@ -489,9 +491,9 @@ class DequeGen:
                             self.core_op(rng, sims[1], ops, slot=1, only=rng.choice(["add_last", "add_first", "remove_first", "add_last"]))
                         a, b = rng.choice([(0, 1), (1, 0)])
                         self.zip_program(rng, sims[a], sims[b], ops, a=a, b=b, fault=fault, reject=reject, allow_fail=allow_fail)
-                elif focus in ("derived", "all", "fault") and r < (0.15 if focus == "derived" else 0.05):
+                elif r < p_iter + p_der:
                     self.derived_program(rng, sims, ops, fault=fault, reject=reject, allow_fail=allow_fail)
-                elif focus in ("derived", "all") and r < 0.2 and rng.random() < 0.2:
+                elif focus in ("derived", "all") and r < p_iter + p_der + 0.015:
                     ops.append("remove_all_cb")
                     s0.items = []
                 elif rng.random() < p_add:
